@@ -61,27 +61,30 @@ theorem sum_map_zero {α} (l : List α) (f : α → Nat) (h : ∀ x ∈ l, f x =
   | nil => rfl
   | cons x xs ih => simp [h x (by simp), ih (fun y hy => h y (by simp [hy]))]
 
-theorem detectFormat_eq (lines : List Bytes) :
-    detectFormat lines =
-      if (hints lines).2.2 ≠ 0 then 3 else if (hints lines).2.1 ≠ 0 then 2 else if (hints lines).1 ≠ 0 then 1 else -1 := by
-  unfold detectFormat
-  rcases hints lines with ⟨a, b, c⟩
-  simp only
-
 theorem hints_1 (lines : List Bytes) : (hints lines).1 = ((lines.take 100).map fastaHint).sum := rfl
 theorem hints_2 (lines : List Bytes) : (hints lines).2.1 = ((lines.take 100).map (countHints msfHints)).sum := rfl
 theorem hints_3 (lines : List Bytes) : (hints lines).2.2 = ((lines.take 100).map (countHints cluHints)).sum := rfl
 
-theorem detectFormat_fasta (lines : List Bytes) (h0 : (hints lines).1 ≠ 0) (h1 : (hints lines).2.1 = 0)
-    (h2 : (hints lines).2.2 = 0) : detectFormat lines = 1 := by
-  rw [detectFormat_eq]; simp [h0, h1, h2]
+/-- the first line decides when it carries a hint -/
+theorem detectFormat_head (l : Bytes) (ls : List Bytes) (k : Int) (h : lineKind l = some k) : detectFormat (l :: ls) = k := by
+  unfold detectFormat
+  simp [List.take_succ_cons, h]
 
-theorem detectFormat_msf (lines : List Bytes) (h1 : (hints lines).2.1 ≠ 0) (h2 : (hints lines).2.2 = 0) :
-    detectFormat lines = 2 := by
-  rw [detectFormat_eq]; simp [h1, h2]
+/-- lines without any hint are skipped -/
+theorem detectFormat_skip (l : Bytes) (ls : List Bytes) (h : lineKind l = none) :
+    detectFormat (l :: ls) = ((ls.take 99).findSome? lineKind).getD (-1) := by
+  unfold detectFormat
+  simp [List.take_succ_cons, h]
 
-theorem detectFormat_clu (lines : List Bytes) (h2 : (hints lines).2.2 ≠ 0) : detectFormat lines = 3 := by
-  rw [detectFormat_eq]; simp [h2]
+theorem lineKind_fasta (l : Bytes) (h : fastaHint l ≠ 0) : lineKind l = some 1 := by
+  unfold lineKind; simp [h]
+
+theorem lineKind_clu (l : Bytes) (h0 : fastaHint l = 0) (h : countHints cluHints l ≠ 0) : lineKind l = some 3 := by
+  unfold lineKind; simp [h0, h]
+
+theorem lineKind_msf (l : Bytes) (h0 : fastaHint l = 0) (h1 : countHints cluHints l = 0) (h : countHints msfHints l ≠ 0) :
+    lineKind l = some 2 := by
+  unfold lineKind; simp [h0, h1, h]
 
 theorem sum_map_pos {α} (x : α) (l : List α) (f : α → Nat) (h : f x ≠ 0) : ((x :: l).map f).sum ≠ 0 := by
   simp only [map_cons, sum_cons]; omega
